@@ -831,6 +831,9 @@ public:
 
   /// Return the size of the program in bytes (after resolveLabels()).
   size_t getProgramSize() {
+    if (program.empty()) {
+      return 0;
+    }
     return program.back()->getByteOffset() + program.back()->getSize();
   }
 
